@@ -37,6 +37,7 @@ type Opts struct {
 	NoTrans bool // do not compute transcript
 	Track   bool // coverage counters (critical events)
 	KeepEv  bool // keep the recorded events of every op (RecAll)
+	CacheCB bool // a listener that registers, uses and drops a filter from inside every removal callback
 }
 
 // Violation is a detected property violation.
@@ -133,9 +134,40 @@ func NewSess(cfg Cfg, o Opts) *Sess {
 		s.lsn = &recListener{s: s}
 		s.W.SetListener(s.lsn)
 	}
+	if o.CacheCB && !o.Events {
+		s.W.SetListener(&cacheListener{s: s})
+	}
 	s.tr = 1469598103934665603
 	s.Res = &ResModel{Present: map[int]any{}}
 	return s
+}
+
+// cacheListener uses the filter cache from inside removal callbacks (the world is locked there, but registering
+// filters and querying are not structural changes): a filter over the last removed component (or everything) is
+// registered, queried and dropped again, so the session's own registrations are as before.
+type cacheListener struct{ s *Sess }
+
+func (l *cacheListener) Subscriptions() event.Subscription { return event.EntityRemoved }
+func (l *cacheListener) Components() *ecs.Mask             { return nil }
+func (l *cacheListener) Notify(w *ecs.World, e ecs.EntityEvent) {
+	if !w.IsLocked() {
+		return
+	}
+	m := ecs.All()
+	if n := len(e.RemovedIDs); n > 0 {
+		m = ecs.All(e.RemovedIDs[n-1])
+	}
+	cf := w.Cache().Register(&m)
+	q := w.Query(&cf)
+	cnt := q.Count()
+	q.Close()
+	mq := w.Query(&m)
+	if mq.Count() != cnt {
+		l.s.fail("cache.callback", "a filter registered inside a removal callback selects %d entities, the plain filter %d", cnt, mq.Count())
+	}
+	mq.Close()
+	w.Cache().Unregister(&cf)
+	l.s.Cov.N["cache_ops_in_removal_callbacks"]++
 }
 
 func (s *Sess) registerType(key string) {
